@@ -132,7 +132,7 @@ func (h *Hub) ServeHTTP(w http.ResponseWriter, r *http.Request) {
 		h.localService.ShipID(), remoteService.SKI(), remoteService.ShipID())
 	shipConnection.Run()
 
-	h.registerConnection(shipConnection)
+	h.registerCheckedConnection(shipConnection, true)
 }
 
 // return if there is a connection for a SKI
@@ -216,7 +216,7 @@ func (h *Hub) connectFoundService(remoteService *api.ServiceDetails, host, port,
 		h.localService.ShipID(), remoteService.SKI(), remoteService.ShipID())
 	shipConnection.Run()
 
-	h.registerConnection(shipConnection)
+	h.registerCheckedConnection(shipConnection, false)
 
 	return nil
 }
@@ -485,6 +485,51 @@ func (h *Hub) registerConnection(connection api.ShipConnectionInterface) {
 	defer h.muxCon.Unlock()
 
 	h.connections[connection.RemoteSKI()] = connection
+}
+
+// register a connection that passed keepThisConnection and was started
+//
+// keepThisConnection and the registration are separate critical sections: in between
+// another connection to the same SKI may have been registered, or this connection may
+// already have been closed and reported. The decision is therefore taken again here,
+// together with the registration: a closed connection is not registered, and of two
+// connections only the one initiated by the higher SKI is kept, the other one is closed.
+func (h *Hub) registerCheckedConnection(connection api.ShipConnectionInterface, incomingRequest bool) {
+	remoteSKI := connection.RemoteSKI()
+
+	h.muxCon.Lock()
+
+	// HandleConnectionClosed may already have been invoked for this connection
+	if isClosed, _ := connection.DataHandler().IsDataConnectionClosed(); isClosed {
+		h.muxCon.Unlock()
+		return
+	}
+
+	var loser api.ShipConnectionInterface
+	existingC, exists := h.connections[remoteSKI]
+	if exists && existingC != connection {
+		keep := false
+		if incomingRequest {
+			keep = remoteSKI > h.localService.SKI()
+		} else {
+			keep = h.localService.SKI() > remoteSKI
+		}
+		if keep {
+			loser = existingC
+		} else {
+			loser = connection
+		}
+	}
+	if loser != connection {
+		h.connections[remoteSKI] = connection
+	}
+
+	h.muxCon.Unlock()
+
+	if loser != nil {
+		logging.Log().Debug("closing double connection")
+		go loser.CloseConnection(false, 0, "")
+	}
 }
 
 // return the connection for a specific SKI
